@@ -150,7 +150,7 @@ def _interp(self, ops):
             raise ValueError(kind)
 
 
-def _make_gen(name, vendor, acl, ops):
+def _make_gen(name, vendor, acl, ops, acl_safe=None):
     from annet.generators import PartialGenerator
 
     def run(self, device):
@@ -158,7 +158,10 @@ def _make_gen(name, vendor, acl, ops):
 
     def aclf(self, device):
         return acl
-    return type(str(name), (PartialGenerator,), {"run_" + vendor: run, "acl_" + vendor: aclf})
+    members = {"run_" + vendor: run, "acl_" + vendor: aclf}
+    if acl_safe is not None:
+        members["acl_safe_" + vendor] = lambda self, device: acl_safe
+    return type(str(name), (PartialGenerator,), members)
 
 
 def _tree(d):
@@ -188,7 +191,7 @@ make_generator = _make_gen      # make_generator(name, vendor, acl_text, ops) ->
 
 
 def run_old_new(device_model, generators, config_text=None, add_implicit=False, acl=True, exclusive=True,
-                hostname="dev1", tags=None):
+                hostname="dev1", tags=None, acl_safe=False):
     """Run the real `annet.gen._old_new_per_device` for one stub CLI device and return its `OldNewResult`
     (`.old`, `.new`, `.err`, `.acl_rules`, `.partial_results`, `.implicit_rules`, ...).
 
@@ -223,7 +226,7 @@ def run_old_new(device_model, generators, config_text=None, add_implicit=False, 
             g.storage = dev.storage
         gens.append(g)
     args = types.SimpleNamespace(
-        fail_on_empty_config=False, no_acl=not acl, acl_safe=False, generators_context=None, profile=False,
+        fail_on_empty_config=False, no_acl=not acl, acl_safe=bool(acl_safe), generators_context=None, profile=False,
         no_acl_exclusive=not exclusive, required_packages_check=False, filter_acl=None, filter_ifaces=None,
         filter_peers=None, filter_policies=None)
     dg = agen.DeviceGenerators(partial={dev: gens}, ref={dev: []})
@@ -589,6 +592,40 @@ def simple_match(ws, row):
     return all(w == "*" or w == r for w, r in zip(ws, rw))
 
 
+def simple_rules_rev(raw, reverse):
+    """like simple_rules, but rule rows may start with the negation word (used for ownership only)"""
+    out = []
+    for r in raw:
+        ws = r["row"].split(" ")
+        if r["global"] or r["ignore"] or r["prio"] != 0 or len(r["cant_delete"]) != 1 or ws == [reverse]:
+            return None
+        for i, w in enumerate(ws):
+            if w in ("*",) or (w == "~" and i == len(ws) - 1):
+                continue
+            if not _SIMPLE_WORD.match(w):
+                return None
+        ch = simple_rules_rev(r["children"], reverse)
+        if ch is None:
+            return None
+        out.append((ws, not r["cant_delete"][0], ch))
+    return out
+
+
+def owns_deletably(rules, path, reverse):
+    """does a simple rule tree hold a deletable rule matching the last row of the path, as written or in the other
+    (negated / un-negated) form?  Children rules are handed down by direct matches only."""
+    level = rules
+    for i, row in enumerate(path):
+        direct = [r for r in level if simple_match(r[0], row)]
+        if i == len(path) - 1:
+            other = [r for r in level if simple_match(r[0][1:] if r[0][0] == reverse else [reverse] + r[0], row)]
+            return any(r[1] for r in direct + other)
+        if not direct:
+            return False
+        level = [c for r in direct for c in r[2]]
+    return False
+
+
 def simple_walk(rules, path):
     """(covered, deletable at the last row) walking a simple rule tree along a path"""
     level = rules
@@ -715,6 +752,22 @@ def expected(case):
         if sc != conflict:
             return dict(kind="oracle-disagrees", what="ownership: independent matcher says first conflict = %r, walk "
                         "with annet's matcher says %r" % (sc, conflict))
+    # ownership with negated forms, by an independent matcher: two generators own a yielded row deletably, one of
+    # them possibly only through the other form of the row
+    srs = [simple_rules_rev(raw_rules(textwrap.dedent(t)), reverse) for _n, t in texts]
+    if all(x is not None for x in srs) and conflict is None:
+        from annet.annlib import patching as _pt
+        try:
+            reached = set(paths_of(_tree(_pt.apply_acl(_odict(union), merged))))     # rows the merged ACL does not drop
+        except Exception:  # noqa
+            reached = set()
+        for p in paths_of(union):
+            if p not in reached:
+                continue
+            owners = sorted(n for (n, _t), x in zip(texts, srs) if owns_deletably(x, p, reverse))
+            if len(owners) > 1:
+                return dict(kind="oracle-disagrees", what="ownership: generators %s each hold a deletable rule matching the "
+                            "yielded row %r (as written or in its negated form), no conflict is reported" % (owners, p))
     if conflict:
         return dict(kind="AclNotExclusiveError", path=conflict[0], names=conflict[1], own_drop=own_drop)
     return dict(kind="ok", union=union, own_drop=own_drop, merged_text=merged_text,
